@@ -46,7 +46,7 @@ CHECKS = {
         level="exploration",
         technique="runtime monitor: exact-rational sizing oracle on every _valid_size/set_size/rendered_size result + fixed-vs-dynamic shadow over operation histories",
         text="Sizing results for random sources, terminal sizes, real pty cell sizes, cell ratios, frames and all modes in both families are "
-        "judged against the documented inequalities in exact fractions; histories of set_size/size=/resize/set_cell_ratio/render check that "
+        "judged against the documented inequalities in exact fractions (float cell ratios and the automatic DYNAMIC / FIXED modes on cells that are not 1:2); histories of set_size/size=/resize/set_cell_ratio/render check that "
         "fixed sizes never move and dynamic sizes follow the terminal.",
         note="Trusts vf/models/sizing.py (AUTO three-valued within +-0.5 px) and the pty's TIOCSWINSZ as the source of terminal/cell size.",
     ),
@@ -87,7 +87,7 @@ CHECKS = {
         level="fault_enumeration",
         technique="fault enumeration: exception injected at the k-th frame render for every k of every generated scenario (5 exception kinds) + size failures; per-token finalization counters",
         text="Every scenario (str, render, draw still/animated, full/partial iteration, close twice, drop reference, seeks, __iter__, "
-        "_from_render_data_ with either ownership, two or three co-existing iterators ended in any order, re-entrant close, mid-iteration resizes) is profiled fault-free and re-run with a fault at each render call; every render-data "
+        "_from_render_data_ with either ownership, two or three co-existing iterators ended in any order, re-entrant close, mid-iteration resizes; a quarter of them inside an except block, i.e. while an unrelated exception is being handled) is profiled fault-free and re-run with a fault at each render call; every render-data "
         "token must be finalized exactly once (0 times by the library when the caller keeps ownership), explicitly rather than only by the "
         "collector (also when size validation fails before the first render), never used after finalization, and the iterator must be closed afterwards.",
         note="Finalization is observed through the subject's own _finalize_render_data_ / _render_ (tokens in its _Data_ namespace); CPython reference counting assumed for the drop-reference scenario.",
@@ -97,7 +97,7 @@ CHECKS = {
         technique="runtime monitor: strict kitty / iTerm2 protocol tokenizers over every render + decoded-pixel oracle (identity arrays / PIL BOX), chunk-boundary sweep",
         text="Every kitty render is tokenized (control keys on the first chunk only, chunk <= 4096 and multiple of 4 unless last, m flags, "
         "payload length = s*v*bytes-per-pixel after inflation, LINES strips stitched) and every iterm2 render checked for size=, cell keys, "
-        "decodable PNG/JPEG payload or untouched file bytes under the read-from-file rules; pixels compared with the expected image; payload "
+        "decodable PNG/JPEG payload or untouched file bytes under the read-from-file rules; pixels compared with the expected image (animated sources: the current frame, reached through visited and rendered other frames); payload "
         "lengths swept across the 4096-character chunk boundaries for compression levels 0,1,4,9.",
         note="Trusts vf/proto.py (protocol documents), PIL decoders and convert/resize(BOX)/alpha_composite for non-identity cases; JPEG judged against PIL's own codec at the effective quality.",
     ),
@@ -124,7 +124,7 @@ CHECKS = {
         text="Both APIs' draw() (stills and animations, all styles per identity, paddings, loops, cache, initial cursor rows incl. forced "
         "scrolling, TTY or not) write to a real pty; at every flush the screen must equal one frame drawn alone at the origin, in the "
         "documented order; after the call the screen equals the last frame plus one newline, cursor visible at column 0 below, attributes "
-        "reset, no unnecessary scroll; rejected sizes raise the documented error before any byte is written.",
+        "reset, no unnecessary scroll; rejected sizes raise the documented error before any byte is written; animations are also ended by Ctrl-C during the k-th wait, the k-th frame render and the k-th frame write (a prefix delivered): the call returns silently with the cursor visible and not inside the region.",
         note="Trusts VTerm (incl. iTerm2/wezterm/konsole personalities), the logical clock replacing sleep/time in the library's namespaces, and the padding geometry model.",
     ),
     "C07": dict(
@@ -160,7 +160,7 @@ CHECKS = {
         technique="fault enumeration: an exception before/after every tcgetattr/tcsetattr/tcdrain/write/select/read of each operation and every write/flush of draw()'s output stream incl. those of its clean-up (only the restoring tcsetattr itself excluded, by stack walk), real SIGINT while parked in select; byte-for-byte tcgetattr comparison on a real pty",
         text="Every attribute-changing operation (queries, direct reads in all modes, query helpers, draw with echo suppressed) is run from "
         "random initial attribute sets; after normal return, time-out, a raising predicate, an injected KeyboardInterrupt/OSError at each "
-        "system-call boundary and a real SIGINT, tcgetattr must return exactly the initial list (all flags and control characters).",
+        "system-call boundary (the drawn renderable's finalizer hook releasing a resource is one) and a real SIGINT, tcgetattr must return exactly the initial list (all flags and control characters).",
         note="System-call names in the library's namespaces are replaced by counting proxies; a signal between entering a finally block and its first call is out of scope (cannot be excluded in Python).",
     ),
     "C15": dict(
@@ -168,7 +168,7 @@ CHECKS = {
         technique="runtime monitor: freshness model of cell size / ratio / memoized values compared after every step of resize/toggle histories on a real pty; body-execution counters under barrier-released threads with sys.monitoring yield injection",
         text="Histories of resizes (TIOCSWINSZ, pixels present or zero with XTWINOPS answered by the scripted terminal), swap toggles, "
         "query enable/disable, cell-ratio mode changes and reads: every value must be what a fresh computation gives (pixel-only changes "
-        "lenient, as documented), also after subprocesses were started (shared-memory cache); results memoized while queries were disabled -- a negative auto-cell-ratio support finding included -- must vanish on enable_queries(); memoized probes run their "
+        "lenient, as documented), also after subprocesses were started (shared-memory cache); results memoized while queries were disabled -- a negative auto-cell-ratio support finding and graphics-style support derived from an inherited TERM_PROGRAM included -- must vanish on enable_queries(); memoized probes run their "
         "body exactly once per argument tuple / terminal size under 2..16 simultaneous first calls with line-level yield injection.",
         note="Trusts the freshness model in vf/checks/c15.py and CPython's sys.monitoring for yield injection; AutoCellRatio.is_supported is reset to None (documented as settable) at the start of every history and modelled independently.",
     ),
@@ -176,7 +176,7 @@ CHECKS = {
         level="exploration",
         technique="runtime monitor: offline overlap sweep over [enter, exit] interval logs of lock_tty-decorated probes from every thread and process of real multiprocessing trees (fork/spawn/forkserver) under a pty; id-echoing queries; hand-over delay and line-level yield injection",
         text="Each run is a fresh process tree (threads x children x grandchildren, created as Process(target=...) or as a Process subclass overriding run(); all processes rendezvous for a second batch so that the whole tree is demonstrably at work simultaneously; Process.start() at random moments while other threads "
-        "hammer probes and queries, delays injected around the lock hand-over and inside the wrappers): no two synchronized intervals of "
+        "hammer probes and queries, in some runs with one thread inside a synchronized call for over a second across the first start, delays injected around the lock hand-over and inside the wrappers): no two synchronized intervals of "
         "different threads/processes may overlap (one system-wide monotonic clock, stamps taken inside the body), every query must get "
         "exactly its own reply, nested calls must not block; hangs in >= 3 independent runs are a reproducible-hang violation, fewer are "
         "inconclusive.",
